@@ -121,16 +121,19 @@ func applySearchSingleQuery(colWips map[string]*ColWip, sQuery *structs.SearchQu
 		}
 		return retVal
 	case structs.MatchWordsAllColumns:
+		matched := false
 		for cname, colVal := range colWips {
 			if cname == tsKey {
 				continue
 			}
 			retVal, _ := ApplySearchToMatchFilterRawCsg(sQuery.MatchFilter, colVal.getLastRecord(), nil, sQuery.FilterIsCaseInsensitive)
 			if retVal {
-				return true
+				matched = true
+				break
 			}
 		}
-		return false
+		// a negated match selects the records where no column has the words
+		return matched != sQuery.MatchFilter.NegateMatch
 	case structs.SimpleExpression:
 		rawVal, ok := colWips[sQuery.QueryInfo.ColName]
 		if !ok {
